@@ -89,6 +89,7 @@ func (w *World) doOp() {
 		w.opsLeft = 0
 		return
 	}
+	w.maybeStall()
 	x := w.C.Choose(total)
 	for _, o := range en {
 		if x < o.weight {
@@ -482,7 +483,7 @@ func (w *World) opReload() {
 	w.S.Stat("reload." + desc)
 	// C19: the real daemon reloads from exactly one goroutine (the periodic loop), a second concurrent reload would
 	// be an artefact of the harness
-	if w.C.Prob(2, 3) && !w.armed("C19") {
+	if w.C.Prob(2, 3) && !w.armed("C19") && !w.reloadInFlight() {
 		inst := w.inst
 		w.spawnGalaxy("reload", "reload", func() { reloadTask(inst) })
 	}
@@ -659,4 +660,26 @@ func (w *World) opAddRange() {
 			break
 		}
 	}
+}
+
+// maybeStall injects sched.stall: one galaxy-ipam task (a resync pass, an unbind, an API request, a scheduling
+// attempt ...) is not scheduled for a while, as under a GC pause, a slow API call or a loaded node. This is what makes
+// "between its check and its write" windows long enough for whole pod lifecycles to fit in.
+func (w *World) maybeStall() {
+	if !w.prof.Stall || w.phase != 1 || !w.C.Prob(1, 5) {
+		return
+	}
+	var cands []*core.Task
+	for _, t := range w.S.Tasks() {
+		if t.Proc == w.proc && t.Proc != 0 && t.Tag != "init" && w.stalled[t] == 0 {
+			cands = append(cands, t)
+		}
+	}
+	if len(cands) == 0 {
+		return
+	}
+	t := pick(w.C, cands)
+	w.stalled[t] = w.S.Steps + 30 + w.C.Choose(400)
+	w.S.Stat("fault.sched.stall")
+	w.S.Sig("F:stall:" + t.Tag)
 }
